@@ -1379,6 +1379,9 @@ def run(ck):
                        '_kekule_component is hand-modelled statement by statement (set iteration order of double_bonded is an input); tie = first forms / raise of '
                        'the real generator on every component of every input, with buffer 7 and 0; only the order-1-or-2 / length invariant is proved about it',
                        '__prepare_rings is hand-modelled (SSSR is an input of the model); tie = exhaustive atom-state grid + every whole input molecule',
+                       'thiele(fix_tautomers=False) is hand-modelled (inputs of the model: SSSR, the second ring search _sssr, the freak SMARTS queries); tie = pruned skeleton, '
+                       'ring count, freak rings and final bond orders on every Kekule form of the inputs; the hydrogen-moving search of fix_tautomers=True is not modelled',
+                       'the carbon hydrogen theorem is over the generated valence tables (translator elements) and C04\'s calc_implicit model',
                        'the SMARTS rule engine behind __fix_rings / freak_rules is not modelled: the relation is applied to the molecule after __fix_rings',
                        'calc_implicit (hydrogen recalculation) is an oracle of the driver model; it is modelled by C04',
                        'hydrogen / valence oracles are claimed inside the domain where RDKit and chython\'s own valence rules accept a Kekule spelling of the input']
@@ -1429,7 +1432,7 @@ def run(ck):
     ck.extra['seconds'] = {'proof steps': round(t_proof - t00, 1), 'grid': round(t_grid - t_proof, 1), 'real code + oracles': round(t_py - t_grid, 1), 'coq cases': round(time.time() - t_py, 1)}
     prep_failed = [c for c in failed if c[2] == 'prep']
     rel_failed = [c for c in failed if c[2] != 'prep']
-    ck.oblige('correspondence: Kekule.__prepare_rings == Model.Kekule.prepare_rings (atom-state grid + whole molecules) and kekule() == kekule_driver given the search result',
+    ck.oblige('correspondence: Kekule.__prepare_rings == Model.Kekule.prepare_rings (atom-state grid + whole molecules), kekule() == kekule_driver given the search result, _kekule_component == kekule_component (molecules + generated components), thiele(fix_tautomers=False) == Model.Thiele.thiele_model',
               ok and not prep_failed, 'correspondence', log[-1500:] or str([c[1] for c in prep_failed[:5]]))
     ck.oblige('every kekule() / enumerate_kekule() / thiele() output is accepted by the Coq checkers kekule_rel / thiele_rel', ok and not rel_failed,
               'correspondence', str([c[1] for c in rel_failed[:5]]))
@@ -1441,7 +1444,7 @@ def run(ck):
         except Exception as e:
             ck.extra['directed_search_failures'] = f'stopped: {type(e).__name__}: {e}'
     if prep_failed:
-        ck.unchecked('correspondence Model.Kekule.prepare_rings / kekule_driver vs chython/algorithms/aromatics/kekule.py', 'model and implementation disagree',
+        ck.unchecked('correspondence Model.Kekule (prepare_rings / kekule_driver / kekule_component) and Model.Thiele.thiele_model vs chython/algorithms/aromatics/kekule.py, thiele.py', 'model and implementation disagree',
                      [repr(c[1]) for c in prep_failed[:20]])
     if rel_failed:
         clauses = diagnose(rel_failed)
